@@ -120,6 +120,32 @@ def check(tier, seed):
             r2 = bytes(f2.to_bytes())
             cases.append(Case('to_bytes-default-buffer', f'tobytes 10 4 {C.hexs(ext)}', f'{C.hexs(r1)} {C.hexs(r1)} {C.hexs(f1.data)}', {'cls': 10, 'id': 4, 'len': len(ext), 'payload_hex': C.hexs(ext), 'style': 'extend-default'}, kind='default-buffer'))
             cases.append(Case('to_bytes-default-buffer', 'tobytes 10 4 -', f'{C.hexs(r2)} {C.hexs(r2)} -', {'cls': 10, 'id': 4, 'len': 0, 'payload_hex': '-', 'style': 'fresh-after-extend'}, kind='default-buffer', nontrivial=False))
+        # class hierarchies: the generic base class and a concrete parent class are serialised BEFORE the first
+        # serialisation of a class derived from them that has another class/id (state kept per class must not be inherited)
+        def hier(parent, c, i, p):
+            def run():
+                parent().to_bytes()
+                D = type('D', (parent,), {'CID': UbxCID(c, i), 'NAME': 'DERIVED'})
+                f = D()
+                f.data = bytearray(p)
+                m1 = bytes(f.to_bytes())
+                g = parent()
+                g.data = bytearray(p)
+                par = bytes(g.to_bytes())
+                m2 = bytes(f.to_bytes())
+                return f'{C.hexs(m1)} {C.hexs(m2)} {C.hexs(f.data)}', par
+            return run
+        parents = [UbxFrame] + [e['cls'] for _, e in sorted(mt.items()) if e['kind'] != 'ctor-args']
+        for parent in parents[:1] * 3 + rng.sample(parents[1:], 12):
+            c, i = rng.randrange(256), rng.randrange(256)
+            p = gen_payload(rng, rng.randrange(0, 30), 'rand')
+            r = C.guarded(hier(parent, c, i, p))
+            impl, par = r if isinstance(r, tuple) else (r, None)
+            desc = {'cls': c, 'id': i, 'len': len(p), 'payload_hex': C.hexs(p), 'style': 'derived-from-' + parent.__name__}
+            cases.append(Case('to_bytes-derived-class', f'tobytes {c} {i} {C.hexs(p)}', impl, desc, nontrivial=True, kind='derived-class'))
+            if par is not None:
+                pc, pi = parent.CID.cls, parent.CID.id
+                cases.append(Case('to_bytes-derived-class', f'wire {pc} {pi} {C.hexs(p)}', C.hexs(par), dict(desc, cls=pc, id=pi, style='parent-after-derived'), nontrivial=False, kind='derived-class'))
         res.compare(cases)
         # real message classes: wire(CID, pack()) on freshly constructed frames
         res.notes['lengths_distinct'] = len(set(lens))
